@@ -158,13 +158,15 @@ theorem gregorian2jdn_eq (year ordinal : Int) (hy : InI32 year) (h1 : 1 ≤ ordi
       Int.not_lt, Int.not_le] at hg
     simp only [bind, pure]
     simp (disch := omega) only [i32_some, u32_some, Option.bind_some]
+    congr 2
 
 theorem gapKindForDates_eq (y : Int) (m : Month) (y' : Int) (m' : Month) (hy : -2147483648 ≤ y)
     (hy' : y ≤ 2147483646) :
     gapKindForDates y m y' m' = some (GapKind.forDates y m y' m') := by
   simp only [gapKindForDates, GapKind.forDates, bind, pure]
   split
-  · rfl
+  · split <;> rfl
   · simp (disch := omega) only [i32_some, Option.bind_some]
+    split <;> rfl
 
 end JV.Chk
